@@ -50,6 +50,9 @@ mod verif_c06 {
         let inner_chunk = st.inner_chunk.as_mut().unwrap().gc();
         st.inner_fn = Some(Placed::new(ObjFunction::new(name, 1, 2, inner_chunk, name)));
         let inner_fn = st.inner_fn.as_mut().unwrap().gc();
+        unsafe {
+            KANI_FUNCTION = Some(inner_fn);
+        }
         let idx = (0u16).to_ne_bytes();
         let code = vec![
             idx[0], idx[1], cap[0].0, cap[0].1, cap[1].0, cap[1].1, // first Closure's operands
@@ -80,6 +83,19 @@ mod verif_c06 {
             i += 1;
         }
         World { vm, fiber, chunk }
+    }
+
+    /// `Vm::read_constant` is stubbed: it consumes the two operand bytes with the real `read_short` and
+    /// returns the function constant from a static instead of `active_chunk.constants[index]`. A pointer
+    /// read back from a `Value` stored in an untyped heap block loses its identity in CBMC; the loop bound
+    /// `function.upvalue_count` then stops being a constant and every allocation loop is explored to the
+    /// unwind limit. Only the constant-pool lookup is replaced.
+    static mut KANI_FUNCTION: Option<Gc<ObjFunction>> = None;
+    impl Vm {
+        fn read_constant_stub(&mut self) -> Value {
+            let _ = self.read_short();
+            Value::ObjFunction(unsafe { KANI_FUNCTION.unwrap() })
+        }
     }
 
     fn slot(w: &World, i: usize) -> Value {
@@ -130,6 +146,7 @@ mod verif_c06 {
     #[kani::stub(std::collections::hash_map::RandomState::new, random_state_stub)]
     #[kani::stub(std::fmt::format, fmt_stub)]
     #[kani::stub(crate::memory::Heap::collect_if_required, crate::memory::verif_mem::collect_if_required_stub)]
+    #[kani::stub(Vm::read_constant, Vm::read_constant_stub)]
     fn c06_closures_share_captured_locals() {
         let vals: [f64; 3] = kani::any();
         let s: [u8; 4] = kani::any();
@@ -199,6 +216,7 @@ mod verif_c06 {
     #[kani::stub(std::collections::hash_map::RandomState::new, random_state_stub)]
     #[kani::stub(std::fmt::format, fmt_stub)]
     #[kani::stub(crate::memory::Heap::collect_if_required, crate::memory::verif_mem::collect_if_required_stub)]
+    #[kani::stub(Vm::read_constant, Vm::read_constant_stub)]
     fn c06_closed_variables_keep_value_and_sharing() {
         let vals: [f64; 3] = kani::any();
         // c1 captures locals (3, 1); c2 captures (1, 3) - both share both variables, opposite order
@@ -253,6 +271,7 @@ mod verif_c06 {
     #[kani::stub(std::collections::hash_map::RandomState::new, random_state_stub)]
     #[kani::stub(std::fmt::format, fmt_stub)]
     #[kani::stub(crate::memory::Heap::collect_if_required, crate::memory::verif_mem::collect_if_required_stub)]
+    #[kani::stub(Vm::read_constant, Vm::read_constant_stub)]
     fn c06_nested_capture_reuses_enclosing_upvalue() {
         let vals: [f64; 3] = kani::any();
         let k: u8 = kani::any();
@@ -294,6 +313,7 @@ mod verif_c06 {
     #[kani::stub(std::collections::hash_map::RandomState::new, random_state_stub)]
     #[kani::stub(std::fmt::format, fmt_stub)]
     #[kani::stub(crate::memory::Heap::collect_if_required, crate::memory::verif_mem::collect_if_required_stub)]
+    #[kani::stub(Vm::read_constant, Vm::read_constant_stub)]
     fn c06_twin_must_fail() {
         let vals: [f64; 3] = kani::any();
         let mut st = store();
